@@ -221,6 +221,12 @@ def snapshot_check(request):
     state().incorrect_values = 0
 
     if is_xfail(request):
+        # the snapshots of this test are not recorded, but its file takes part in the session:
+        # the externals which are used there are no unused externals
+        test_file = getattr(request.node, "path", None)
+        if test_file is not None and test_file.is_file():
+            state().files_with_snapshots.add(str(test_file))
+
         with snapshot_env() as local_state:
             local_state.active = False
             yield
